@@ -7,7 +7,7 @@ import Mathlib.Data.List.Perm.Basic
 import ScadVerif.Model.Dim3
 import ScadVerif.Spec.Mesh
 namespace ScadVerif.MeshLemmas
-open ScadVerif ScadVerif.Spec ScadVerif.Dim3
+open ScadVerif ScadVerif.Spec ScadVerif.Dim3 ScadVerif.Dim3.Polyhedron
 
 abbrev Edge := Nat × Nat
 
@@ -150,5 +150,267 @@ theorem triFaces_tri (off : Nat) : ∀ (l : List Nat), ∀ f ∈ triFaces off l,
     rcases hf with rfl | hf
     · rfl
     · exact triFaces_tri off rest f hf
+
+/-! ### no directed edge twice -/
+
+/-- index `v` belongs to ring `r` -/
+def InRing (n r v : Nat) : Prop := r * n ≤ v ∧ v < r * n + n
+
+theorem rings_disjoint (n lo hi v : Nat) (h : lo ≠ hi) : ¬(InRing n lo v ∧ InRing n hi v) := by
+  rintro ⟨⟨a1, a2⟩, ⟨b1, b2⟩⟩
+  rcases Nat.lt_or_gt_of_ne h with hlt | hlt
+  · have : (lo + 1) * n ≤ hi * n := Nat.mul_le_mul_right _ hlt
+    rw [Nat.succ_mul] at this; omega
+  · have : (hi + 1) * n ≤ lo * n := Nat.mul_le_mul_right _ hlt
+    rw [Nat.succ_mul] at this; omega
+
+theorem ringF_mem (n r : Nat) (e : Edge) (h : e ∈ ringF n r) : InRing n r e.1 ∧ InRing n r e.2 := by
+  simp only [ringF, List.mem_map, List.mem_range] at h
+  obtain ⟨i, hi, rfl⟩ := h
+  have : (i + 1) % n < n := Nat.mod_lt _ (by omega)
+  exact ⟨⟨by omega, by omega⟩, ⟨by omega, by omega⟩⟩
+theorem ups_mem (n lo hi : Nat) (e : Edge) (h : e ∈ ups n lo hi) : InRing n lo e.1 ∧ InRing n hi e.2 := by
+  simp only [ups, List.mem_map, List.mem_range] at h
+  obtain ⟨i, hi', rfl⟩ := h
+  exact ⟨⟨by omega, by omega⟩, ⟨by omega, by omega⟩⟩
+
+theorem ringF_nodup (n r : Nat) : (ringF n r).Nodup := by
+  unfold ringF
+  refine List.Nodup.map_on ?_ List.nodup_range
+  intro a _ b _ h
+  simp only [Prod.mk.injEq] at h
+  omega
+theorem ups_nodup (n lo hi : Nat) : (ups n lo hi).Nodup := by
+  unfold ups
+  refine List.Nodup.map_on ?_ List.nodup_range
+  intro a _ b _ h
+  simp only [Prod.mk.injEq] at h
+  omega
+
+theorem nodup_map_swap (l : List Edge) (h : l.Nodup) : (l.map Prod.swap).Nodup :=
+  h.map (fun a b hab => by have := congrArg Prod.swap hab; simpa using this)
+
+theorem mem_map_swap (l : List Edge) (e : Edge) : e ∈ l.map Prod.swap ↔ e.swap ∈ l := by
+  constructor
+  · intro h
+    obtain ⟨x, hx, rfl⟩ := List.mem_map.mp h
+    simpa using hx
+  · intro h
+    exact List.mem_map.mpr ⟨e.swap, h, by simp⟩
+
+/-- **in a quad strip between two different rings no directed edge occurs twice** -/
+theorem strip_edges_nodup (n lo hi : Nat) (h : lo ≠ hi) : (allEdges (strip n lo hi)).Nodup := by
+  rw [(strip_edges n lo hi).nodup_iff]
+  have hd := fun v => rings_disjoint n lo hi v h
+  rw [List.nodup_append, List.nodup_append, List.nodup_append]
+  refine ⟨⟨⟨ringF_nodup n lo, ups_nodup n lo hi, ?_⟩, nodup_map_swap _ (ringF_nodup n hi), ?_⟩,
+    nodup_map_swap _ (ups_nodup n lo hi), ?_⟩
+  · intro a ha b hb hab
+    subst hab
+    exact hd a.2 ⟨(ringF_mem n lo a ha).2, (ups_mem n lo hi a hb).2⟩
+  · intro a ha b hb hab
+    subst hab
+    rw [mem_map_swap] at hb
+    have hb' := ringF_mem n hi _ hb
+    simp only [Prod.fst_swap, Prod.snd_swap] at hb'
+    rcases List.mem_append.mp ha with ha | ha
+    · exact hd a.1 ⟨(ringF_mem n lo a ha).1, hb'.2⟩
+    · exact hd a.1 ⟨(ups_mem n lo hi a ha).1, hb'.2⟩
+  · intro a ha b hb hab
+    subst hab
+    rw [mem_map_swap] at hb
+    have hb' := ups_mem n lo hi _ hb
+    simp only [Prod.fst_swap, Prod.snd_swap] at hb'
+    rcases List.mem_append.mp ha with ha | ha
+    · rcases List.mem_append.mp ha with ha | ha
+      · exact hd a.1 ⟨(ringF_mem n lo a ha).1, hb'.2⟩
+      · exact hd a.1 ⟨(ups_mem n lo hi a ha).1, hb'.2⟩
+    · rw [mem_map_swap] at ha
+      have ha' := ringF_mem n hi _ ha
+      simp only [Prod.fst_swap, Prod.snd_swap] at ha'
+      exact hd a.2 ⟨hb'.1, ha'.1⟩
+
+
+/-! ### revolve strips -/
+
+/-- the directed edges of a revolve strip: the reverse orientation of `strip` -/
+theorem stripRev_edges (n lo hi : Nat) :
+    (allEdges (stripRev n lo hi)).Perm
+      (ups n lo hi ++ ringF n hi ++ (ups n lo hi).map Prod.swap ++ (ringF n lo).map Prod.swap) := by
+  have h1 : allEdges (stripRev n lo hi) = (List.range n).flatMap fun i =>
+      [(lo * n + i, hi * n + i), (hi * n + i, hi * n + (i + 1) % n),
+       (hi * n + (i + 1) % n, lo * n + (i + 1) % n), (lo * n + (i + 1) % n, lo * n + i)] := by
+    simp [allEdges, stripRev, List.flatMap_map, faceEdges_quad]
+  rw [h1]
+  refine (flatMap4_perm _ _ _ _ _).trans ?_
+  have hdown : ((List.range n).map fun i => (hi * n + (i + 1) % n, lo * n + (i + 1) % n)).Perm
+      ((ups n lo hi).map Prod.swap) := by
+    have : ((List.range n).map fun i => (hi * n + (i + 1) % n, lo * n + (i + 1) % n)) =
+        ((List.range n).map fun i => (i + 1) % n).map fun j => (hi * n + j, lo * n + j) := by
+      simp [List.map_map, Function.comp_def]
+    rw [this]
+    have e : (ups n lo hi).map Prod.swap = (List.range n).map fun j => (hi * n + j, lo * n + j) := by
+      simp [ups, List.map_map, Function.comp_def]
+    rw [e]; exact (succ_mod_perm n).map _
+  have e4 : ((List.range n).map fun i => (lo * n + (i + 1) % n, lo * n + i)) = (ringF n lo).map Prod.swap := by
+    simp [ringF, List.map_map, Function.comp_def]
+  rw [e4]
+  exact ((List.Perm.refl _).append (List.Perm.refl _)).append hdown |>.append (List.Perm.refl _)
+
+/-- consecutive revolve strips `0→1, 1→2, …, (k-1)→k` -/
+def revolveBody (n k : Nat) : List (List Nat) := (List.range k).flatMap fun j => stripRev n j (j + 1)
+
+theorem allEdges_append' (a b : List (List Nat)) : allEdges (a ++ b) = allEdges a ++ allEdges b := by
+  simp [allEdges]
+
+theorem revolveBody_succ (n k : Nat) : revolveBody n (k + 1) = revolveBody n k ++ stripRev n k (k + 1) := by
+  simp [revolveBody, List.range_succ]
+
+theorem count_map_swap (l : List Edge) (e : Edge) : (l.map Prod.swap).count e = l.count e.swap := by
+  induction l with
+  | nil => simp
+  | cons a t ih =>
+    simp only [List.map_cons, List.count_cons, ih]
+    congr 1
+    by_cases h : a = e.swap
+    · subst h; simp
+    · have : ¬ (a.swap = e) := fun h' => h (by rw [← h']; simp)
+      simp [h, this]
+
+/-- **telescoping**: the inner rings of consecutive revolve strips cancel; together with ring 0
+forwards and ring k backwards (what the two caps, or the closing strip, contribute) every directed
+edge is matched by its reverse -/
+theorem revolveBody_closed (n : Nat) : ∀ k,
+    EdgeClosed (allEdges (revolveBody n k) ++ ringF n 0 ++ (ringF n k).map Prod.swap)
+  | 0 => by
+    apply edgeClosed_of_halves (ringF n 0)
+    simp [revolveBody, allEdges]
+  | k + 1 => by
+    have ih := revolveBody_closed n k
+    have hs := stripRev_edges n k (k + 1)
+    unfold EdgeClosed at ih ⊢
+    rw [List.perm_iff_count] at ih ⊢
+    intro e
+    have ih1 := ih e
+    have ih2 := ih e.swap
+    have hs1 := hs.count_eq e
+    have hs2 := hs.count_eq e.swap
+    simp only [revolveBody_succ, allEdges_append', List.map_append, List.count_append, count_map_swap,
+      Prod.swap_swap] at ih1 ih2 hs1 hs2 ⊢
+    omega
+
+/-- the closing strip of a full revolve is the revolve strip from the last ring back to ring 0 -/
+theorem closing_strip (n s : Nat) :
+    ((List.range n).map fun i => [(s - 1) * n + i, i, (i + 1) % n, (s - 1) * n + (i + 1) % n]) =
+      stripRev n (s - 1) 0 := by
+  simp [stripRev]
+
+/-- **a full (360°) revolve is closed**: for every profile size and segment count, every directed edge
+of the face list is matched by its reverse — no caps, no conditions -/
+theorem fullRevolve_closed (n s : Nat) :
+    EdgeClosed (allEdges (revolveBody n (s - 1) ++
+      (List.range n).map fun i => [(s - 1) * n + i, i, (i + 1) % n, (s - 1) * n + (i + 1) % n])) := by
+  rw [closing_strip, allEdges_append']
+  have hb := revolveBody_closed n (s - 1)
+  have hs := stripRev_edges n (s - 1) 0
+  unfold EdgeClosed at hb ⊢
+  rw [List.perm_iff_count] at hb ⊢
+  intro e
+  have h1 := hb e
+  have h2 := hb e.swap
+  have hs1 := hs.count_eq e
+  have hs2 := hs.count_eq e.swap
+  simp only [List.map_append, List.count_append, count_map_swap, Prod.swap_swap] at h1 h2 hs1 hs2 ⊢
+  omega
+
+/-- **a partial revolve is closed when its two caps tile their rings** (start cap: ring 0 forwards,
+end cap: ring k backwards) -/
+theorem partialRevolve_closed (n k : Nat) (capStart capEnd dS dE : List Edge)
+    (hS : capStart.Perm (ringF n 0 ++ dS ++ dS.map Prod.swap))
+    (hE : capEnd.Perm ((ringF n k).map Prod.swap ++ dE ++ dE.map Prod.swap)) :
+    EdgeClosed (capStart ++ allEdges (revolveBody n k) ++ capEnd) := by
+  have hb := revolveBody_closed n k
+  unfold EdgeClosed at hb ⊢
+  rw [List.perm_iff_count] at hb ⊢
+  intro e
+  have h1 := hb e
+  have h2 := hb e.swap
+  have s1 := hS.count_eq e
+  have s2 := hS.count_eq e.swap
+  have e1 := hE.count_eq e
+  have e2 := hE.count_eq e.swap
+  simp only [List.map_append, List.count_append, count_map_swap, Prod.swap_swap] at h1 h2 s1 s2 e1 e2 ⊢
+  omega
+
+
+/-! ### sweep strips -/
+
+
+/-- consecutive sweep strips `0→1, …, (k-1)→k` -/
+def sweepBody (n k : Nat) : List (List Nat) := (List.range k).flatMap fun j => strip n j (j + 1)
+theorem sweepBody_succ (n k : Nat) : sweepBody n (k + 1) = sweepBody n k ++ strip n k (k + 1) := by
+  simp [sweepBody, List.range_succ]
+
+/-- telescoping for sweep strips: open at ring 0 (forwards) and ring k (backwards) -/
+theorem sweepBody_closed (n : Nat) : ∀ k,
+    EdgeClosed (allEdges (sweepBody n k) ++ (ringF n 0).map Prod.swap ++ ringF n k)
+  | 0 => by
+    apply edgeClosed_of_halves ((ringF n 0).map Prod.swap)
+    simp [sweepBody, allEdges, swap_swap_map]
+  | k + 1 => by
+    have ih := sweepBody_closed n k
+    have hs := strip_edges n k (k + 1)
+    unfold EdgeClosed at ih ⊢
+    rw [List.perm_iff_count] at ih ⊢
+    intro e
+    have ih1 := ih e
+    have ih2 := ih e.swap
+    have hs1 := hs.count_eq e
+    have hs2 := hs.count_eq e.swap
+    simp only [sweepBody_succ, allEdges_append', List.map_append, List.count_append, count_map_swap,
+      Prod.swap_swap] at ih1 ih2 hs1 hs2 ⊢
+    omega
+
+theorem closing_sweep_strip (n l : Nat) :
+    ((List.range n).map fun i => [(l - 1) * n + i, (l - 1) * n + (i + 1) % n, (i + 1) % n, i]) =
+      strip n (l - 1) 0 := by
+  simp [strip]
+
+/-- **a closed sweep is closed**, for every profile size and path length — unconditionally -/
+theorem closedSweep_closed (n l : Nat) :
+    EdgeClosed (allEdges (sweepBody n (l - 1) ++
+      (List.range n).map fun i => [(l - 1) * n + i, (l - 1) * n + (i + 1) % n, (i + 1) % n, i])) := by
+  rw [closing_sweep_strip, allEdges_append']
+  have hb := sweepBody_closed n (l - 1)
+  have hs := strip_edges n (l - 1) 0
+  unfold EdgeClosed at hb ⊢
+  rw [List.perm_iff_count] at hb ⊢
+  intro e
+  have h1 := hb e
+  have h2 := hb e.swap
+  have hs1 := hs.count_eq e
+  have hs2 := hs.count_eq e.swap
+  simp only [List.map_append, List.count_append, count_map_swap, Prod.swap_swap] at h1 h2 hs1 hs2 ⊢
+  omega
+
+/-- an open sweep is closed when its caps tile their rings (start: ring 0 backwards, end: ring k
+forwards) -/
+theorem openSweep_closed (n k : Nat) (capStart capEnd dS dE : List Edge)
+    (hS : capStart.Perm ((ringF n 0).map Prod.swap ++ dS ++ dS.map Prod.swap))
+    (hE : capEnd.Perm (ringF n k ++ dE ++ dE.map Prod.swap)) :
+    EdgeClosed (capStart ++ allEdges (sweepBody n k) ++ capEnd) := by
+  have hb := sweepBody_closed n k
+  unfold EdgeClosed at hb ⊢
+  rw [List.perm_iff_count] at hb ⊢
+  intro e
+  have h1 := hb e
+  have h2 := hb e.swap
+  have s1 := hS.count_eq e
+  have s2 := hS.count_eq e.swap
+  have e1 := hE.count_eq e
+  have e2 := hE.count_eq e.swap
+  simp only [List.map_append, List.count_append, count_map_swap, Prod.swap_swap] at h1 h2 s1 s2 e1 e2 ⊢
+  omega
+
 
 end ScadVerif.MeshLemmas
